@@ -111,6 +111,15 @@ def catalogue(tier):
         out.append((f"innate-tip-position:{keys[0]}:77", cols, k))
     except BaseException:
         pass
+    # a slowly responding sample: the farthest point comes tens of samples
+    # after the instrument switched from approach to retract
+    for sd, lag in ((81, 40), (82, 60)):
+        try:
+            cols, k = synthetic(keys[0], sd, tilt=0.0, drift=0.0, lag=lag,
+                                noise=2e-11, n_app=220, n_ret=140)
+            out.append((f"late-turning-point:{keys[0]}:{sd}:{lag}", cols, k))
+        except BaseException:
+            pass
     # a height column that is a staircase (oversampled DAC ramp): weakly
     # monotone with repeated values in each segment
     try:
